@@ -24,6 +24,7 @@ import (
 )
 
 type c08Site struct {
+	Tabs     int      `json:"delimiter_tabs"` // <<- : tabs in front of the delimiter line
 	Op       string   `json:"op"`
 	DelimSrc string   `json:"delim_src"`
 	Delim    string   `json:"delim"`
@@ -87,7 +88,7 @@ func c08Render(t []string, sites []c08Site) string {
 				b.WriteString(bl + "\n")
 			}
 			if s.Op == "<<-" {
-				b.WriteByte('\t')
+				b.WriteString(strings.Repeat("\t", s.Tabs))
 			}
 			b.WriteString(s.Delim + "\n")
 		}
@@ -146,7 +147,7 @@ func c08Check(c c08Case, cmds []ast.Command, err error) string {
 		}
 		wd := s.Delim
 		if s.Op == "<<-" {
-			wd = "\t" + wd
+			wd = strings.Repeat("\t", s.Tabs) + wd
 		}
 		if gd, _ := printNode(r.Delim); gd != wd {
 			return fmt.Sprintf("redirection %d (%s%s): Delim is %q, the delimiter line is %q", i, s.Op, s.DelimSrc, gd, wd)
@@ -241,7 +242,7 @@ func c08Run(w *W) {
 				return c08Site{}, false
 			}
 		}
-		return c08Site{op, d.src, d.delim, d.quoted, body}, true
+		return c08Site{1, op, d.src, d.delim, d.quoted, body}, true
 	}
 	for ti, t := range c08Templates {
 		n := c08Sites(t)
@@ -257,6 +258,13 @@ func c08Run(w *W) {
 					for _, b := range bs {
 						if s, ok := mk(op, d, b); ok {
 							choices = append(choices, []c08Site{s})
+							if op == "<<-" && len(b) <= 1 {
+								for _, tabs := range []int{0, 2, 3} {
+									s2 := s
+									s2.Tabs = tabs
+									choices = append(choices, []c08Site{s2})
+								}
+							}
 						}
 					}
 				}
@@ -287,6 +295,9 @@ func c08Run(w *W) {
 				for _, d := range c08Delims[:2] {
 					for _, b := range [][]string{{"x"}, {"$v"}} {
 						s, _ := mk(op, d, b)
+						if op == "<<-" && len(per)%2 == 1 {
+							s.Tabs = 2
+						}
 						per = append(per, s)
 					}
 				}
@@ -318,7 +329,7 @@ func init() {
 	register(&check{
 		id:    "C08",
 		level: "model_checking",
-		rule: "32 host templates with 1–3 here-document sites (simple command, both sides of a pipe, lists, every compound form, function body, compound redirection, inside $( ) and backquotes, before && / | + newline, numbered, several on one line and on different lines) × {<<, <<-} × delimiters {E, 'E', \"E\", E\\F} × bodies from the 12-line menu " +
+		rule: "32 host templates with 1–3 here-document sites (simple command, both sides of a pipe, lists, every compound form, function body, compound redirection, inside $( ) and backquotes, before && / | + newline, numbered, several on one line and on different lines) × {<<, <<- with 0–3 tabs before the delimiter line} × delimiters {E, 'E', \"E\", E\\F} × bodies from the 12-line menu " +
 			"{empty, x, 'E ', ' E', EE, tab+x, tab+E, $v, $(c), `c`, \\$v, a\\b} (one-site: all sequences ≤ 2 lines; two sites: ≤ 1 line each; three sites: 8 variants each); every program under ALL schedules of the lexer/parser pair (one site) or all schedules with ≤ 1 preemption (more sites)",
 		assume: []string{"backslash-newline inside bodies is outside the alphabet (POSIX removes it, 'byte for byte' cannot be demanded there)", "scheduler as in C06 (e2.go)"},
 		run:    c08Run,
